@@ -273,7 +273,14 @@ def main(argv):
         out.append({"obs": obs, "bad": bad})
     if len(argv) > 3 and argv[3] == "labellers":
         feeds = _feeds()
-        evs = [labeller_event(*x, feeds=feeds) for x in labellers()]
+        evs = []
+        for x in labellers():
+            try:
+                evs.append(labeller_event(*x, feeds=feeds))
+            except Exception as e:       # a labeller that falls over on a legal input: an event that satisfies no clause
+                evs.append({"f": x[0], "n_in": x[2], "ok": False, "idx": [], "masks": [], "edges": [], "labels": [], "untouched": False,
+                            "commutes": False, "rejects_wrong_size": False, "same_for_all_input_kinds": False,
+                            "notes": ["%s raised while the labeller was exercised: %s" % (type(e).__name__, str(e)[:160])]})
     else:
         evs = []
     with open(argv[2], "w") as f:
